@@ -1007,6 +1007,14 @@ def directed_recipes():
                             {'op': 'transfer', 'src': {'p': 2, 'r': one(1, 1)}, 'dst': {'p': 4, 'r': row(1)}, 'q': q('10', 'u', 'L')},
                             {'op': 'transfer', 'src': {'c': 1}, 'dst': {'p': 4, 'r': row(0)}, 'q': q('25', 'u', 'L')}],
                   'stages': [{'name': 'st1', 'start': 0, 'stop': 1}], 'queries': []})
+    # a row of a loaded plate used whole by one step, then narrowed (a kept slice object, see run_recipe.href) by the next ones
+    progs.append({'subs': subs, 'objects': objs, 'prefill': [{'src': 1, 'dst': 2, 'q': q('90', 'u', 'L')}],
+                  'steps': [{'op': 'transfer', 'src': {'p': 2, 'r': row(0)}, 'dst': {'p': 4, 'r': row(0)}, 'q': q('10', 'u', 'L')},
+                            {'op': 'transfer', 'src': {'p': 2, 'r': one(0, 0)}, 'dst': {'p': 4, 'r': row(1)}, 'q': q('5', 'u', 'L')},
+                            {'op': 'transfer', 'src': {'p': 2, 'r': {'rect': [[0], [1, 2]]}}, 'dst': {'p': 4, 'r': {'rect': [[1], [0, 1]]}}, 'q': q('4', 'u', 'L')},
+                            {'op': 'remove', 't': {'p': 4, 'r': one(0, 2)}, 'w': {'s': 1}},
+                            {'op': 'transfer', 'src': {'c': 1}, 'dst': {'c': 3}, 'q': q('1', 'm', 'L')}],
+                  'stages': [], 'queries': []})
     # a large vessel spiked again and again with a vanishing share of its content: every addition is an inflow
     big = [{'t': 'c', 'name': 1, 'init': [[1, q('1', '', 'L')]]}, {'t': 'c', 'name': 2, 'init': [[1, q('1', 'm', 'L')], [4, q('58.44', 'u', 'g')]]}]
     progs.append({'subs': subs, 'objects': big, 'prefill': [],
